@@ -4,6 +4,7 @@
 From Coq Require Import String List Bool Arith Lia.
 From Tally Require Export C15.Model C15.Spec.
 From Tally Require Import C15.ProofsLoss C15.ProofsLossFault C15.ProofsCsvCrash C15.ProofsCsvFault C15.ProofsLayout.
+From Tally Require Export C15.XMove.
 Import ListNotations.
 Open Scope string_scope.
 Open Scope list_scope.
@@ -192,4 +193,42 @@ Lemma w_layout_nests :
   let f1 := crash (update_ops Ow f0) 9 0 0 f0 in
   fst (resolve_layout Ow f0) = INew "r" /\ fst (resolve_layout Ow f1) = INew "q" /\
   content_at f1 [Atally; Aconfig; Aconfig; Arules] = Some "r".
+Proof. vm_compute. repeat split; reflexivity. Qed.
+
+(* ---- layout migration across file systems (shutil.move = mkdir + copies + unlinks + rmdir) ---------- *)
+Definition xlayout_statement : Prop :=
+  forall (O : oracle) (s0 r0 : string) (d : option string) (t fault : bool) (k j n : nat),
+    mf O s0 = MfKey [Aconfig; Arules] ->
+    let f0 := layout_budget s0 r0 d None t None false in
+    let f1 := xinterrupt fault (xupdate_ops O f0) k j n f0 in
+    let f2 := xupdate_rerun O f1 in
+    layout_safe O f0 f1 f2 r0.
+
+Lemma xlayout_refuted : ~ xlayout_statement.
+Proof.
+  intro H. specialize (H Ow "n" "r" None false false 4 0 0 eq_refl). vm_compute in H.
+  destruct H as (_ & _ & _ & X); discriminate X.
+Qed.
+
+Lemma xlayout_partial :
+  forall (O : oracle) (s0 r0 : string) (d : option string) (t fault : bool) (k j n : nat),
+    mf O s0 = MfKey [Aconfig; Arules] ->
+    let f0 := layout_budget s0 r0 d None t None false in
+    let f1 := xinterrupt fault (xupdate_ops O f0) k j n f0 in
+    let f2 := xupdate_rerun O f1 in
+    content_kept f0 f1 f2 /\ (xlayout_guard d k = true -> layout_rules_safe O f0 f1 f2 r0).
+Proof.
+  intros O s0 r0 d t fault k j n Hmf f0 f1 f2. split.
+  - exact (xlayout_no_loss O s0 r0 d t fault k j n _ _ _ eq_refl eq_refl eq_refl).
+  - intros Hg. exact (xlayout_rules_safe O s0 r0 d t fault k j n _ _ _ Hmf Hg eq_refl eq_refl eq_refl).
+Qed.
+
+(* the interrupted copy itself is harmless (./config still wins); the RE-RUN nests ./config into the partial
+   ./tally/config, whose settings.yaml then names a merchants.rules that was never copied *)
+Lemma w_xlayout_rerun_nests :
+  let f0 := layout_budget "n" "r" None None false None false in
+  let f1 := xcrash (xupdate_ops Ow f0) 4 0 0 f0 in
+  let f2 := xupdate_rerun Ow f1 in
+  resolve_layout Ow f1 = resolve_layout Ow f0 /\ fst (resolve_layout Ow f2) = INone /\
+  content_at f2 [Atally; Aconfig; Aconfig; Arules] = Some "r".
 Proof. vm_compute. repeat split; reflexivity. Qed.
